@@ -56,7 +56,7 @@ obl('C15.UNDERSCORE', 'low_level::exit', 'termination is by _exit, never exit()/
 obl('C15.NOOP', 'flag::register_conditional_shutdown (action closure)', 'condition false => no libc call at all')
 
 PROPS['C15'] = dict(
-    level='proof', units=['flag'],
+    level='proof', complete=True, units=['flag'],
     trusted=L('A4', 'A5', 'A10', 'A12') + ['history part ("survives the first signal, dies on the second") = per-delivery contract from an arbitrary flag state + C02 order; the induction over histories is by DESIGN.md section C15'],
     explanation='Kani proves the contract of the closures built by the real flag::register* for all prior flag values, all statuses, all signal numbers; deliveries are modelled by a stub of signal_hook_registry::register that runs the captured closure twice.')
 
@@ -70,13 +70,16 @@ obl('C17.RS-TABLE', FR, 'origin.cause == documented class of (si_code, si_signo)
 obl('C17.RS-PROCESS-IFF', FR, 'origin.process.is_some() <=> cause is Sent(_) or Chld(_)')
 obl('C17.RS-PID', FR, 'when reported, pid/uid equal si_pid/si_uid (all values)')
 PROPS['C17'] = dict(
-    level='proof', units=['extract_c', 'siginfo'],
+    level='proof', complete=True, units=['extract_c', 'siginfo'],
     trusted=L('A5', 'A6', 'A10') + ['x86-64 Linux siginfo_t layout (si_pid at byte 16, si_uid at 20) for the Rust-side harness; WithOrigin::load = Origin::extract of the record received (C10)'],
     technique='function contracts on the real C file (CBMC) and on the real Rust extractor linked with that C file (Kani), full input domain',
     explanation='CBMC proves the C classifier against the documented si_code table for every (si_code, si_signo); Kani proves Origin::extract, compiled together with the real extract.c, reports signal, cause and process exactly as the kernel-documented meaning, for all inputs.')
 import replay as _R
 REPLAYERS['C11.PENDING-ONLY-IF-ARMED'] = _R.replay_c11_armed
 REPLAYERS['C15.VALUE'] = _R.replay_c15_value
+REPLAYERS['C05.FLAGS'] = _R.replay_c05_flags
+for _o in ('C16.SEQ-TERM', 'C16.UNBLOCK-BEFORE-RAISE', 'C16.ABORT-FALLBACK'):
+    REPLAYERS[_o] = _R.replay_c16_seq
 REPLAYERS['C13.DELIVERY-NONBLOCKING'] = _R.replay_c13
 REPLAYERS['C13.REJECT-INVALID'] = _R.replay_c13
 REPLAYERS['C15.SET'] = _R.replay_c15_set
@@ -117,7 +120,7 @@ obl('C16.COND-UNKNOWN', 'flag::register_conditional_default', 'unknown signal: E
 obl('C16.NAME', 'low_level::signal_name', 'for all 0..=65: a returned name is a platform name of that number')
 obl('C16.NAME-RANGE', 'low_level::signal_name', 'all other c_int: None')
 PROPS['C16'] = dict(
-    level='proof', units=['sigdetails', 'flag'],
+    level='proof', complete=True, units=['sigdetails', 'flag'],
     trusted=L('A4', 'A5', 'A6', 'A10') + ['that the proved call sequence has the kernel default outcome (also inside the handler) is kernel semantics'],
     explanation='Kani proves, for every c_int, that emulate_default_handler issues exactly the libc call sequence of the platform default kind (oracle: table transcribed from signal(7)), and signal_name only returns platform names.')
 
@@ -148,7 +151,7 @@ obl('C13.REGISTER-ONCE', 'pipe::register_raw', 'exactly one registry registratio
 obl('C14.PIPE-RELEASE', 'pipe::register_raw', 'forbidden signal: the action handed to the registry owns the fd; dropping it closes the fd exactly once')
 obl('C14.PIPE-NO-PANIC', 'pipe::register_raw, pipe::register', 'no panic inside the pipe front-end itself for any input (refusal happens in the registry, after the fd has an owner)')
 PROPS['C13'] = dict(
-    level='proof', units=['pipe'],
+    level='proof', complete=True, units=['pipe'],
     trusted=L('A3', 'A4', 'A5', 'A10', 'A12') + ['"reader sees <= deliveries bytes and >= 1 since last drain" follows from ONE-ATTEMPT + kernel pipe/socket semantics (not machine-checked)'],
     explanation='Kani proves the trace contract of wake() and of the closure built by the real register_raw/register against a libc model with a ghost descriptor (valid?, socket?, O_NONBLOCK set?), for all fds, signals, return values and errnos.')
 
@@ -396,9 +399,6 @@ UNITS['registry'] = dict(
         'c05_op_unregister': dict(props=['C05', 'C02', 'C18', 'C01'], tier='thorough', kind='bounded', bound=_SHAPE_L),
         'c05_op_unregister_signal': dict(props=['C05', 'C18', 'C01', 'C02'], tier='thorough', kind='bounded', bound=_SHAPE_L),
         'c05_op_register_occupied': dict(props=['C05', 'C02', 'C18', 'C01'], tier='thorough', kind='bounded', bound=_SHAPE_L),
-        # bounded histories through the real mutators (very expensive; thorough only)
-        'c05_history': dict(props=['C05', 'C02'], tier='thorough', kind='bounded', bound='bounded(one fixed history shape, symbolic signals)'),
-        'c04_chain': dict(props=['C04'], tier='thorough', kind='bounded', bound='bounded(one fixed history shape)'),
     })
 FR = 'registry lib.rs: '
 obl('C04.EXEC-NONE', FR + 'Prev::execute', 'SIG_DFL / SIG_IGN / 0: nothing is called (all sa_flags)')
@@ -471,3 +471,13 @@ PROPS['C03'] = dict(level='other', units=['half_lock', 'registry', 'pipe', 'flag
     trusted=_TR + L('A1', 'A7') + ['"never allocates or frees heap memory" is only covered as "never drops a last reference" (C03.NO-FREE) - a raw allocation inside a delivery cannot be observed: Kani implements the allocator in its C runtime and it cannot be stubbed', 'bounded steps "wherever every other thread is paused": the read side takes no value another thread must change (C03.READ-WAITFREE, C03.WAIT-FREE); validity of the snapshot it dereferences is C01'],
     technique='frame/trace contracts on the dispatcher and every built-in action (no lock, no wait, no last-reference drop, reader counts balanced, exactly one non-blocking system call), Kani/CBMC',
     explanation='The dispatcher, from an arbitrary bounded-shape registry state and arbitrary counter values, takes no lock, never yields/spins, terminates within the unwinding bound, drops no last reference and leaves the reader counts balanced; each built-in action is exactly its one atomic store / one non-blocking system call.')
+
+UNITS['itermod'] = dict(
+    name='itermod', engine='kani', crate='.', inject=[('src/iterator/mod.rs', K + 'itermod.rs')], flags=FFI,
+    scan=[K + 'libc_model.rs'], harnesses={'c09_has_signals': dict(props=['C09', 'C11'], kind='bounded', bound='bounded(<= 3 reads per call)')})
+obl('C09.HAS-SIGNALS', 'iterator/mod.rs: SignalsInfo::has_signals', 'one blocking 1-byte read of the read end, retried only on failure, EINTR never passed on; Ok(n>0) / Ok(false) on EOF / Err', kind='bounded(<= 3 reads)')
+
+PROPS['C11']['units'] = ['backend', 'backend_small', 'itermod']
+PROPS['C09']['units'] = ['backend_small', 'backend', 'itermod']
+PROPS['C11']['trusted'] = PROPS['C11']['trusted'] + ['SignalsInfo::wait / Forever::next are four-arm matches over the proved poll_pending / poll_signal with the proved has_signals as callback; that composition is by reading']
+PROPS['C09']['trusted'] = PROPS['C09']['trusted'] + ['SignalsInfo::wait / Forever::next compose poll_pending / poll_signal / has_signals by a four-arm match (by reading)']
